@@ -7,6 +7,8 @@ import RbV.Lemmas.SmallInts
 import RbV.Lemmas.Fenwick
 import RbV.Thm.GenSrcFenwick
 import RbV.Thm.GenSrcBitEnc
+import RbV.Thm.GenSrcBitEncOps
+import RbV.Thm.GenSrcSmallInts
 /-!
 # C18 — bit-packed containers behave exactly like plain vectors
 
@@ -269,5 +271,167 @@ example : Gen.SrcBitEnc.getByAddr [0, 0xFFFFFD7F] 7 1 7 = Rs.Res.ok 2 := by deci
 example : Gen.SrcBitEnc.mask 32 = Rs.Res.panic := by decide
 
 end bitenc_source
+
+/-! ## BitEnc: the constructor and the public operations translated from the source text (session 4, genbits)
+
+`BitEnc::{new, push, push_values, set, get, clear, nr_blocks, nr_symbols, len}` are translated as well (same generated
+file).  A `BitEnc` value is the tuple of its fields; `new` — translated — fixes `mask = mask(width)` and
+`usable_bits_per_block = 32 - 32 % width`, so nothing about the fields is "read off" by the model any more.  `Shape`
+is the block-count invariant `storage.len() = ⌈len / ⌊32/w⌋⌉` that `bitenc_refines` proves for every history; it is what
+keeps `self.storage[block]` in bounds.  Proofs: `RbV/Thm/GenSrcBitEncOps.lean`. -/
+section bitenc_ops_source
+open RbV.Spec.BitEnc RbV.Thm.GenSrcBitEncOps
+open RbV.Model.BitEnc (St usable)
+
+/-- `BitEnc::new(w)`, as written (assertion, `mask(width)`, `32 - 32 % width`), builds the empty model state with the
+field values all other theorems assume -/
+theorem bitenc_new_source_eq_model (w : Nat) (hw : 1 ≤ w ∧ w ≤ 8) :
+    Gen.SrcBitEnc.new w
+      = Rs.Res.ok (Model.BitEnc.new.storage, w, Model.BitEnc.mask w, Model.BitEnc.new.len, usable w) :=
+  new_eq_model w hw
+
+/-- widths above 8 are refused (`assert!`) -/
+theorem bitenc_new_source_wide_panics (w : Nat) (hw : 8 < w) : Gen.SrcBitEnc.new w = Rs.Res.panic :=
+  new_wide_panics w hw
+
+/-- **`BitEnc::push`, as written, is the model's `push`** -/
+theorem bitenc_push_source_eq_model (w : Nat) (hw : 1 ≤ w ∧ w ≤ 8) (s : St) (hs : Shape w s)
+    (hlen : s.len * w < 2 ^ 64) (hlen1 : s.len + 1 < 2 ^ 64) (v : Nat) :
+    Gen.SrcBitEnc.push s.storage w (Model.BitEnc.mask w) s.len (usable w) v
+      = Rs.Res.ok ((Model.BitEnc.push w s v).storage, (Model.BitEnc.push w s v).len) :=
+  push_eq_model w hw s hs hlen hlen1 v
+
+/-- **`BitEnc::push_values`, as written** (fill-up loop over `(bit..usable).step_by(width).take(n)`, value block loop,
+`resize`, partial block) **is the model's `pushValues`** -/
+theorem bitenc_push_values_source_eq_model (w : Nat) (hw : 1 ≤ w ∧ w ≤ 8) (s : St) (hs : Shape w s) (n v : Nat)
+    (hlen : (s.len + n) * w < 2 ^ 64) (hlen1 : s.len + n < 2 ^ 64) :
+    Gen.SrcBitEnc.pushValues s.storage w (Model.BitEnc.mask w) s.len (usable w) n v
+      = Rs.Res.ok ((Model.BitEnc.pushValues w s n v).storage, (Model.BitEnc.pushValues w s n v).len) :=
+  pushValues_eq_model w hw s hs n v hlen hlen1
+
+/-- **`BitEnc::set`, as written, is the model's `set`** when the addressed block exists (e.g. `i < len`) -/
+theorem bitenc_set_source_eq_model (w : Nat) (hw : 1 ≤ w ∧ w ≤ 8) (s : St) (i v : Nat) (hmul : i * w < 2 ^ 64)
+    (hb : (Model.BitEnc.addr w i).1 < s.storage.length) :
+    Gen.SrcBitEnc.set s.storage w (Model.BitEnc.mask w) s.len (usable w) i v
+      = Rs.Res.ok (Model.BitEnc.set w s i v).storage :=
+  set_eq_model w hw s i v hmul hb
+
+/-- **`BitEnc::get`, as written, is the model's `get`** (every index: beyond the end it returns `None`, no panic) -/
+theorem bitenc_get_source_eq_model (w : Nat) (hw : 1 ≤ w ∧ w ≤ 8) (s : St) (hs : Shape w s)
+    (hlen : s.len * w < 2 ^ 64) (i : Nat) :
+    Gen.SrcBitEnc.get s.storage w (Model.BitEnc.mask w) s.len (usable w) i = Rs.Res.ok (Model.BitEnc.get w s i) :=
+  get_eq_model w hw s hs hlen i
+
+/-- `BitEnc::clear`, `nr_blocks`, `nr_symbols` / `len`, as written -/
+theorem bitenc_clear_len_source_eq_model (w m u : Nat) (s : St) :
+    Gen.SrcBitEnc.clear s.storage w m s.len u
+      = Rs.Res.ok ((Model.BitEnc.clear s).storage, (Model.BitEnc.clear s).len) ∧
+    Gen.SrcBitEnc.nrBlocks s.storage w m s.len u = Rs.Res.ok (Model.BitEnc.nrBlocks s) ∧
+    Gen.SrcBitEnc.nrSymbols s.storage w m s.len u = Rs.Res.ok s.len ∧
+    Gen.SrcBitEnc.len s.storage w m s.len u = Rs.Res.ok s.len :=
+  ⟨clear_eq_model w m u s, nrBlocks_eq_model w m u s, (nrSymbols_eq_model w m u s).1, (nrSymbols_eq_model w m u s).2⟩
+
+/-- **generated code refines the plain vector**: build the object with the translated `new`, run any history with the
+translated operations (`srcStep`; `OpsOk`: every `set` hits an existing element, the length in bits fits `usize`):
+nothing panics, the final `len` is the length of the spec vector, the translated `get` returns the spec vector's element
+at every index (`None` beyond the end), the translated `nr_blocks` is `⌈len / ⌊32/w⌋⌉`.
+(`source_run_eq_model` ∘ `bitenc_refines`.) -/
+theorem bitenc_source_refines (w : Nat) (hw : 1 ≤ w ∧ w ≤ 8) (ops : List Op) (hok : OpsOk w [] ops) :
+    ∃ st len m u,
+      Gen.SrcBitEnc.new w = Rs.Res.ok ([], w, m, 0, u) ∧
+      ops.foldlM (srcStep w m u) ([], 0) = Rs.Res.ok (st, len) ∧
+      len = (ops.foldl (specStep w) []).length ∧
+      (∀ i, Gen.SrcBitEnc.get st w m len u i = Rs.Res.ok ((ops.foldl (specStep w) [])[i]?)) ∧
+      Gen.SrcBitEnc.nrBlocks st w m len u = Rs.Res.ok ((len + 32 / w - 1) / (32 / w)) := by
+  have habs := Lemmas.BitEnc.abs_run w hw ops Model.BitEnc.new [] (Lemmas.BitEnc.abs_new w hw)
+  have hrun := run_eq_model w hw ops Model.BitEnc.new [] (Lemmas.BitEnc.abs_new w hw) hok
+  have href := bitenc_refines w hw ops
+  have hfin := opsOk_final_len w ops [] (by simp) hok
+  refine ⟨_, _, Model.BitEnc.mask w, usable w, new_eq_model w hw, hrun, href.2.1, ?_, ?_⟩
+  · intro i
+    rw [get_eq_model w hw _ habs.2 (by rw [href.2.1]; exact hfin) i, href.2.2.1 i]
+  · rw [nrBlocks_eq_model, href.2.2.2]
+
+-- non-vacuity: width 3; the history of the `bitenc_refines` example (fills a block, overruns it, unmasked value)
+example : Gen.SrcBitEnc.new 3 = Rs.Res.ok ([], 3, 7, 0, 30) := by decide
+example : Gen.SrcBitEnc.new 9 = Rs.Res.panic := by decide
+example : Gen.SrcBitEnc.new 0 = Rs.Res.panic := by decide
+example : [Op.pushValues 9 1, .pushValues 2 13, .push 255, .set 0 8, .pushValues 12 6].foldlM (srcStep 3 7 30) ([], 0)
+    = Rs.Res.ok ([690262600, 920350141, 3510], 24) := by decide
+example : OpsOk 3 [] [Op.pushValues 9 1, .pushValues 2 13, .push 255, .set 0 8, .pushValues 12 6] := by
+  simp [OpsOk, specStep]
+example : Gen.SrcBitEnc.get [690262600, 920350141, 3510] 3 7 24 30 11 = Rs.Res.ok (some 7) := by decide
+example : Gen.SrcBitEnc.get [690262600, 920350141, 3510] 3 7 24 30 24 = Rs.Res.ok none := by decide
+-- `set` beyond the allocated blocks: the Rust code panics (index out of bounds), so does the translation
+example : Gen.SrcBitEnc.set [5] 3 7 1 30 10 1 = Rs.Res.panic := by decide
+
+end bitenc_ops_source
+
+/-! ## SmallInts: function bodies translated from the source text (session 4, genbits)
+
+`RbV/Gen/SrcSmallInts.lean` (regenerated from `src/data_structures/smallints.rs` on every `./check C18` / `./check C03`):
+`real_value`, `get`, `push`, `set`, `from_elem`, `len`.  `S`, `B` are type variables and `cast`, `S::max_value()`, `<`,
+`size_of` abstract parameters of the translated functions; the theorems instantiate them as the mirror model reads them
+(`cBS lo hi = cast` into the range `[lo, hi]`, `cSB = some`, `S::max_value() = hi`).  The `BTreeMap` is the association
+list of `Rs.mapInsert` / `Rs.mapGet`.  Proofs: `RbV/Thm/GenSrcSmallInts.lean`. -/
+section smallints_source
+open RbV.Spec.SmallInts RbV.Thm.GenSrcSmallInts
+open RbV.Model.SmallInts (St)
+
+/-- `fn real_value` and `SmallInts::get`, as written, are the model's (`get`: every index, `None` beyond the end) -/
+theorem smallints_get_source_eq_model (lo hi : Int) (sS sB : Nat) (s : St) (i : Nat) :
+    (∀ v, Gen.SrcSmallInts.realValue (cBS lo hi) cSB (cZ lo hi) ltI hi sS sB s.small s.big i v
+      = Rs.Res.ok (Model.SmallInts.realValue hi s i v)) ∧
+    Gen.SrcSmallInts.get (cBS lo hi) cSB (cZ lo hi) ltI hi sS sB s.small s.big i
+      = Rs.Res.ok (Model.SmallInts.get hi s i) :=
+  ⟨fun v => realValue_eq_model lo hi sS sB s i v, get_eq_model lo hi sS sB s i⟩
+
+/-- **`SmallInts::push`, as written** (`match cast(v) { Some(v) if v < maxv => …, _ => … }`) **is the model's `push`** -/
+theorem smallints_push_source_eq_model (lo hi : Int) (sS sB : Nat) (s : St) (v : Int) :
+    Gen.SrcSmallInts.push (cBS lo hi) cSB (cZ lo hi) ltI hi sS sB s.small s.big v
+      = Rs.Res.ok ((Model.SmallInts.push lo hi s v).small, (Model.SmallInts.push lo hi s v).big) :=
+  push_eq_model lo hi sS sB s v
+
+/-- **`SmallInts::set`, as written, is the model's `set`** for an existing index; beyond the end it panics -/
+theorem smallints_set_source_eq_model (lo hi : Int) (sS sB : Nat) (s : St) (i : Nat) (v : Int) :
+    (i < s.small.length → Gen.SrcSmallInts.set (cBS lo hi) cSB (cZ lo hi) ltI hi sS sB s.small s.big i v
+      = Rs.Res.ok ((Model.SmallInts.set lo hi s i v).small, (Model.SmallInts.set lo hi s i v).big)) ∧
+    (s.small.length ≤ i → Gen.SrcSmallInts.set (cBS lo hi) cSB (cZ lo hi) ltI hi sS sB s.small s.big i v
+      = Rs.Res.panic) :=
+  ⟨set_eq_model lo hi sS sB s i v, set_oob_panics lo hi sS sB s i v⟩
+
+/-- `SmallInts::from_elem`, as written: builds the model's state under its assertions, refuses `S::max_value()` -/
+theorem smallints_from_elem_source_eq_model (lo hi : Int) (h0 : lo ≤ 0 ∧ 0 < hi) (sS sB : Nat) (hsz : sS < sB) (n : Nat) :
+    (∀ v, (0 < v → v < hi) → Gen.SrcSmallInts.fromElem (cBS lo hi) cSB (cZ lo hi) ltI hi sS sB v n
+      = Rs.Res.ok ((Model.SmallInts.fromElem v n).small, (Model.SmallInts.fromElem v n).big)) ∧
+    Gen.SrcSmallInts.fromElem (cBS lo hi) cSB (cZ lo hi) ltI hi sS sB hi n = Rs.Res.panic :=
+  ⟨fun v hv => fromElem_eq_model lo hi ⟨h0.1, by omega⟩ sS sB hsz v n hv, fromElem_max_panics lo hi h0 sS sB hsz n⟩
+
+/-- **generated code refines the plain vector**: any history whose `set`s address existing elements, run with the
+translated operations from the empty object, does not panic; its final length is the spec vector's and the translated
+`get` returns the spec vector's element at every index (`None` beyond the end).  (`run_eq_model` ∘ `smallints_refines`.) -/
+theorem smallints_source_refines (lo hi : Int) (sS sB : Nat) (ops : List Op) (hok : OpsOk [] ops) :
+    ∃ small big, ops.foldlM (srcStep lo hi sS sB) ([], []) = Rs.Res.ok (small, big) ∧
+      Gen.SrcSmallInts.len (cBS lo hi) cSB (cZ lo hi) ltI hi sS sB small big
+        = Rs.Res.ok (ops.foldl specStep []).length ∧
+      ∀ i, Gen.SrcSmallInts.get (cBS lo hi) cSB (cZ lo hi) ltI hi sS sB small big i
+        = Rs.Res.ok ((ops.foldl specStep [])[i]?) := by
+  have hrun := run_eq_model lo hi sS sB ops Model.SmallInts.new [] (Lemmas.SmallInts.abs_new hi) hok
+  have href := smallints_refines lo hi ops
+  refine ⟨_, _, hrun, ?_, fun i => ?_⟩
+  · rw [len_eq_model, href.1]
+  · rw [get_eq_model, href.2.1 i]
+
+-- non-vacuity: i8 range; the history of the `smallints_refines` example
+example : [Op.push 126, .push 127, .push 128, .push (-129), .set 1 5, .set 0 1000, .set 0 (-7), .set 2 127].foldlM
+    (srcStep (-128) 127 1 8) ([], []) = Rs.Res.ok ([-7, 5, 127, 127], [(2, 127), (0, 1000), (3, -129), (2, 128), (1, 127)]) := by
+  decide
+example : OpsOk [] [Op.push 126, .push 127, .push 128, .push (-129), .set 1 5, .set 0 1000, .set 0 (-7), .set 2 127] := by
+  simp [OpsOk, specStep]
+example : Gen.SrcSmallInts.get (cBS (-128) 127) cSB (cZ (-128) 127) ltI 127 1 8 [-7, 5, 127, 127]
+    [(2, 127), (0, 1000), (3, -129), (2, 128), (1, 127)] 3 = Rs.Res.ok (some (-129)) := by decide
+example : Gen.SrcSmallInts.fromElem (β := Int) (cBS (-128) 127) cSB (cZ (-128) 127) ltI 127 1 8 127 3 = Rs.Res.panic := by decide
+
+end smallints_source
 
 end RbV.Thm.C18
